@@ -44,6 +44,7 @@ var c15Sources = map[string]string{
 	"grok.p":   "add_pattern(\"wd\", \"[a-z]+\")\nok = grok(_, \"%{wd:w} %{INT:n:int}\")\nadd_key(ok)\nuse(\"ok.p\")\n",
 	"retag.p":  "drop_key(t1)\nset_tag(f1)\nadd_key(t1, \"now field\")\nrename(g, f1)\ncast(f2, \"str\")\n",
 	"spin.p":   "n = 0\nfor ;; { n = n + 1\nadd_key(n) }\n",
+	"lit.p":    "g = [[0, 0], [1]]\ng[0][0] += 1\nm = {\"k\": [0], \"j\": {\"n\": 0}}\nm[\"k\"][0] += 1\nm[\"j\"][\"n\"] = m[\"j\"][\"n\"] + 1\nadd_key(g0, g[0][0])\nadd_key(mk, m[\"k\"][0])\nadd_key(mj, m[\"j\"][\"n\"])\nif \"a\" in [\"a\", \"b\"] { add_key(found, true) }\n",
 }
 
 func c15Points() []PointSpec {
@@ -121,6 +122,7 @@ func c15Ops() []c15Op {
 		runOp("readv.p", 0, 0),
 		runOp("grok.p", 0, 0),
 		runOp("retag.p", 2, 0),
+		runOp("lit.p", 1, 0),
 		runOp("loop.p", 0, 1),
 		runOp("spin.p", 1, 7),
 	}
@@ -289,7 +291,7 @@ func init() {
 	run.Register(&run.Check{
 		ID:    "C15",
 		Level: "model_checking",
-		Rule: "operation histories of length <=3 (thorough <=4) over 14 operations: load of a valid / syntax-error / lexer-error / parser-panic / check-error source; run of scripts that succeed, fail inside a loop, exit inside nested blocks, set variables, read the same names unbound, use grok + use(), delete and re-add tags and fields, each on a point taken from the point pool; runs cancelled at poll 1 and 7; " +
+		Rule: "operation histories of length <=3 (thorough <=4) over 15 operations: load of a valid / syntax-error / lexer-error / parser-panic / check-error source; run of scripts that succeed, fail inside a loop, exit inside nested blocks, set variables, read the same names unbound, use grok + use(), delete and re-add tags and fields, each on a point taken from the point pool; runs cancelled at poll 1 and 7; " +
 			"instrumented build with a sync.Pool shim: the answer of EVERY pool Get (parser, task, point, metadata) is an explorer choice — default LIFO reuse, then every deviation (any other pooled object, or a fresh one) at every Get, <=2 deviations per history; " +
 			"oracle: the last operation's outcome (load verdict and error text / probe trace, canonical final point, error text, drop flag) equals the outcome of the same operation executed first with empty pools; loaded scripts are shared by all histories",
 		Assumptions: []string{"the pools and the loaded syntax trees are the only state that survives an operation (package-level variables were listed by reading the sources)"},
